@@ -23,7 +23,7 @@ PROP = {
                   'wrap at the last column and line feeds on the last line.',
     'level_note': 'The console is a harness mock (what reaches a console is property C18). Writes outside the buffer are '
                   'detected through Go bounds checks of the []uint8 buffer.',
-    'assumptions': ['consoles with an empty cell grid (0 columns or 0 rows) are outside the quantifier: the cursor cannot '
+    'assumptions': ['one case in six takes the size the terminal is told from the shipped framebuffer driver (VesaFbConsole with a shipped font, set up for W x H glyph cells plus spare pixels and pitch padding); the reference terminal then has W x H cells - the cells that fit into the pixels', 'consoles with an empty cell grid (0 columns or 0 rows) are outside the quantifier: the cursor cannot '
                     'stay inside an empty viewport (the VT index-panics on the first stored byte there)',
                     'AttachTo starts a fresh reference terminal of the new geometry (blank buffer, cursor (1,1), '
                     'viewport at the top); the terminal state (active/inactive) is kept',
